@@ -256,6 +256,21 @@ def _grid_site(ctx, m, gates):
                       'Grid(version="2.0").append({"a": [1]}) is accepted, or Grid().append({"a": [1]}) does not report 3.0',
                       '_assert_version deviates from: if nearest(version) < required: raise if version_given else upgrade',
                       file=F, line=av.lineno, engine='E6')
+    # version property: the grid's OWN version (the writers put it into the header)
+    try:
+        vp = m.func('grid', 'Grid.version')
+        vrets = [norm(n.value) for n in walk_no_nested(vp) if isinstance(n, ast.Return)]
+        if vrets == ['self._version']:
+            ctx.ob('C10.D3', 'Grid.version is the version the grid was given / detected (self._version)', True, '%s:%d' % (F, vp.lineno))
+        elif any('nearest' in r for r in vrets):
+            ctx.violation('C10.D3', '%s::Grid.version' % F, '; '.join(vrets),
+                          'Grid(version="2.5").version is 3.0: the JSON writer takes the header from grid.version, so a 2.5 grid is '
+                          'written (and read back) as 3.0', 'Grid.version returns the nearest official version instead of the '
+                          'grid\'s own', file=F, line=vp.lineno, engine='E9')
+        else:
+            ctx.error('C10.D3', 'Grid.version returns %s; cannot decide' % vrets)
+    except AnalysisError:
+        pass
     # nearest_version property
     try:
         nv = m.func('grid', 'Grid.nearest_version')
